@@ -37,6 +37,12 @@ use std::collections::{BTreeMap, BTreeSet, HashMap};
 
 const HEADER: &str = "From AM Require Import Base.Prelude Base.Order Codec.Bloom Codec.ExId Crdt.Types Crdt.Interp Crdt.Doc Crdt.Local Crdt.Commit Crdt.ClockProofs Crdt.Txn Crdt.Resolve Exec.EditExec Exec.TxnExec.\nLocal Open Scope N_scope.\n";
 
+// set when an editing call panicked: the op set is then half-edited and whatever panics next (the rollback of
+// the dropped transaction, a later read) is a consequence, not a second finding
+static CALL_PANICKED: std::sync::atomic::AtomicBool = std::sync::atomic::AtomicBool::new(false);
+fn take_call_panicked() -> bool {
+    CALL_PANICKED.swap(false, std::sync::atomic::Ordering::SeqCst)
+}
 // where a program is (named in the report when the implementation panics)
 static STAGE: std::sync::Mutex<&'static str> = std::sync::Mutex::new("");
 fn stage(s: &'static str) {
@@ -338,6 +344,16 @@ fn future_objects_are_empty<D: ReadDoc>(doc: &D, cands: &[(ObjId, ObjType)], sco
     Ok(n)
 }
 
+/// the first line (object) on which two renderings differ
+fn first_diff_line(a: &str, b: &str) -> (String, String) {
+    for (x, y) in a.lines().zip(b.lines()) {
+        if x != y {
+            return (x.chars().take(1500).collect(), y.chars().take(1500).collect());
+        }
+    }
+    (format!("{} lines", a.lines().count()), format!("{} lines", b.lines().count()))
+}
+
 fn sorted_hashes(mut h: Vec<ChangeHash>) -> Vec<ChangeHash> {
     h.sort();
     h
@@ -567,6 +583,17 @@ fn gen_cmd<D: ReadDoc>(doc: &D, rng: &mut Rng, objs: &[(ObjId, ObjType)], marks:
     }
 }
 
+/// does the transaction delete sequence elements through inner_splice (splice / splice_text with a deletion,
+/// delete on a text)?  In a transaction scoped to older heads that path does not recompute the top flags
+/// (known finding): a surviving concurrent value of the deleted element stays hidden until reload.
+fn has_scoped_splice_delete(calls: &[CallRec], texts: &dyn Fn(&ObjId) -> bool) -> bool {
+    calls.iter().any(|c| c.status == 0 && match &c.cmd {
+        Cmd::Splice(_, _, d, _) | Cmd::SpliceText(_, _, d, _) => *d != 0,
+        Cmd::Delete(o, P::Seq(_)) => texts(o),
+        _ => false,
+    })
+}
+
 struct CallRec {
     cmd: Cmd,
     status: u8,
@@ -592,10 +619,15 @@ fn run_calls<T: Transactable>(t: &mut T, rng: &mut Rng, rep: &mut Report, cands:
         let r = match guard(|| exec(t, &cmd)) {
             Ok(r) => r,
             Err(p) => {
+                // an editing call that panics is a failure of that call (C37; C29 when the transaction is scoped
+                // to older heads, C03 otherwise), whatever this part of the family is looking at
                 rep.count("call_panics");
-                let mut ps: Vec<&str> = props.to_vec();
-                ps.push("C37");
-                rep.fail(&ps, &format!("panic|txn|call|{}|{}", cmd.kind(), p.signature()), &format!("{} panicked: {} at {}", cmd.kind(), p.message, p.location), json!({"log": log.clone()}));
+                let scoped = scope.is_some();
+                let ps: Vec<&str> = if scoped { vec!["C29", "C37"] } else { vec!["C03", "C37"] };
+                let _ = props;
+                rep.fail(&ps, &format!("panic|txn|call|{}|{}|{}", if scoped { "scoped" } else { "plain" }, cmd.kind(), p.signature()),
+                    &format!("{} ({} transaction) panicked: {} at {}", cmd.kind(), if scoped { "scoped" } else { "plain" }, p.message, p.location), json!({"log": log.clone()}));
+                CALL_PANICKED.store(true, std::sync::atomic::Ordering::SeqCst);
                 return None;
             }
         };
@@ -980,6 +1012,11 @@ fn part_rollback(rng: &mut Rng, rep: &mut Report, cw: &mut CaseWriter, gr: &mut 
     let (before, after, calls, prefix_snaps, c1, c2, s1, s2) = match outcome {
         Ok(Some(x)) => x,
         Ok(None) => {
+            take_call_panicked();
+            rep.count("rollback_program_abandoned");
+            return;
+        }
+        Err(_) if take_call_panicked() => {
             rep.count("rollback_program_abandoned");
             return;
         }
@@ -1151,6 +1188,7 @@ fn part_iso(rng: &mut Rng, rep: &mut Report, cw: &mut CaseWriter, gr: &mut Group
         let mut dm: Automerge = base.document().clone();
         let mut tx_holder;
         let mut created_changes: Vec<Change> = vec![];
+        let mut later_calls: Vec<CallRec> = vec![];
         let change;
         let mut second = None;
         if manual {
@@ -1238,8 +1276,12 @@ fn part_iso(rng: &mut Rng, rep: &mut Report, cw: &mut CaseWriter, gr: &mut Group
                 rep.fail(&props, "txn|iso|apply-created", "a replica holding the isolation heads rejects the isolated change", rj(&log));
             }
             let cs = object_ids(&dm.get_changes(&[]));
-            if sorted_hashes(p.get_heads()) != sorted_hashes(dm.get_heads()) || render_reads(&p, &cs, None) != render_reads(&dm, &cs, None) {
-                rep.fail(&props, "txn|iso|not-merge", "after transaction_at + commit the document differs from the merge of the created change into the prior state", rj(&log));
+            let (ra, rb) = (render_reads(&p, &cs, None), render_reads(&dm, &cs, None));
+            if sorted_hashes(p.get_heads()) != sorted_hashes(dm.get_heads()) || ra != rb {
+                let reloaded = Automerge::load(&dm.save()).map(|l| render_reads(&l, &cs, None) == ra).unwrap_or(false);
+                let cls = if has_scoped_splice_delete(&calls, &|o| dm.object_type(o).map(|t| t == ObjType::Text).unwrap_or(false)) { "after-scoped-splice-delete" } else { "other" };
+                rep.fail(&props, &format!("txn|iso|not-merge|{}", cls), &format!("after transaction_at + commit the document differs from the merge of the created change into the prior state (a saved and reloaded copy of the document agrees with the merge: {})", reloaded),
+                    json!({"program": pi, "log": log, "merge": first_diff_line(&ra, &rb).0, "document": first_diff_line(&ra, &rb).1}));
             }
         } else {
             // a second isolated transaction: depends on the first isolated change only
@@ -1248,6 +1290,7 @@ fn part_iso(rng: &mut Rng, rep: &mut Report, cw: &mut CaseWriter, gr: &mut Group
                 if replay(&mut f, &two, &mut fmap).is_err() {
                     return None;
                 }
+                later_calls.extend(two);
                 let h2 = d.commit();
                 f.commit();
                 second = h2.and_then(|h| d.get_change_by_hash(&h));
@@ -1293,8 +1336,12 @@ fn part_iso(rng: &mut Rng, rep: &mut Report, cw: &mut CaseWriter, gr: &mut Group
             }
             let cs = object_ids(&d.get_changes(&[]));
             let (hd1, hd2) = (sorted_hashes(d.get_heads()), sorted_hashes(plain.get_heads()));
-            if hd1 != hd2 || render_reads(&d, &cs, None) != render_reads(&plain, &cs, None) {
-                rep.fail(&props, "txn|iso|integrate-not-merge", "after integrate the document differs from the merge of the isolated changes into the non-isolated state", rj(&log));
+            let (ra, rb) = (render_reads(&plain, &cs, None), render_reads(&d, &cs, None));
+            if hd1 != hd2 || ra != rb {
+                let reloaded = AutoCommit::load(&d.save()).map(|l| render_reads(&l, &cs, None) == ra).unwrap_or(false);
+                let cls = if has_scoped_splice_delete(&calls, &|o| d.object_type(o).map(|t| t == ObjType::Text).unwrap_or(false)) || has_scoped_splice_delete(&later_calls, &|o| d.object_type(o).map(|t| t == ObjType::Text).unwrap_or(false)) { "after-scoped-splice-delete" } else { "other" };
+                rep.fail(&props, &format!("txn|iso|integrate-not-merge|{}", cls), &format!("after integrate the document differs from the merge of the isolated changes into the non-isolated state (a saved and reloaded copy of the document agrees with the merge: {})", reloaded),
+                    json!({"program": pi, "log": log, "merge": first_diff_line(&ra, &rb).0, "document": first_diff_line(&ra, &rb).1}));
             }
             rep.count("iso_integrate_compared");
         }
@@ -1303,6 +1350,11 @@ fn part_iso(rng: &mut Rng, rep: &mut Report, cw: &mut CaseWriter, gr: &mut Group
     let o = match outcome {
         Ok(Some(o)) => o,
         Ok(None) => {
+            take_call_panicked();
+            rep.count("iso_program_abandoned");
+            return;
+        }
+        Err(_) if take_call_panicked() => {
             rep.count("iso_program_abandoned");
             return;
         }
@@ -1340,7 +1392,8 @@ fn part_iso(rng: &mut Rng, rep: &mut Report, cw: &mut CaseWriter, gr: &mut Group
                     chs, chs, coq_table(&table), coq_actor(base.get_actor()), m.hs(&hs), calls_coq(&o.calls), ai, af
                 )
             };
-            gr.add(cw, defs, vec![(term, json!({"kind": "iso", "props": ["C29"], "program": pi, "manual": manual, "log": log}))]);
+            let kind = if has_scoped_splice_delete(&o.calls, &|id| o.cands.iter().any(|c| c.0 == *id && c.1 == ObjType::Text)) { "iso-after-scoped-splice-delete" } else { "iso" };
+            gr.add(cw, defs, vec![(term, json!({"kind": kind, "props": ["C29"], "program": pi, "manual": manual, "log": log}))]);
             rep.model_cases += 1;
         }
     }
@@ -1368,6 +1421,79 @@ fn probe_known_integrate_panic(rep: &mut Report) {
         rep.fail(&["C29", "C37"], &format!("panic|txn|isolate-merge-integrate|{}", p.signature()),
             &format!("isolate(h1); edit; commit; merge(other); isolate(h1); integrate() panicked: {} at {}", p.message, p.location),
             json!({"probe": "d actor [5,0]; e = d.fork() actor [9,99]; d.set_actor([194,2]); e.put(j,6); e.commit(); d.put(k,6); h1 = d.commit(); d.isolate([h1]); d.put(k,5); d.commit(); d.merge(e); d.isolate([h1]); d.integrate()"}));
+    }
+}
+
+/// increment inside a transaction scoped to heads at which a register holds a counter and a concurrent
+/// non-counter, both deleted since: add_succ_with_undo exposes the counter as top op although it is not visible
+/// in the document, and reset_top's assert!(v) fires
+fn probe_scoped_increment(rep: &mut Report) {
+    let r = guard(|| {
+        let mut a = AutoCommit::new().with_actor(ActorId::from(vec![1u8]));
+        a.put(ROOT, "x", 0).unwrap();
+        a.commit();
+        let mut b = a.fork().with_actor(ActorId::from(vec![2u8]));
+        a.put(ROOT, "a", ScalarValue::counter(8)).unwrap();
+        a.commit();
+        b.put(ROOT, "a", ScalarValue::Null).unwrap();
+        b.commit();
+        a.merge(&mut b).unwrap();
+        let hs = a.get_heads(); // "a" = counter | null (conflict)
+        a.delete(ROOT, "a").unwrap();
+        a.commit(); // both gone in the document
+        let mut m: Automerge = a.document().clone();
+        let mut tx = m.transaction_at(PatchLog::inactive(), &hs).unwrap();
+        let r = guard(|| tx.increment(ROOT, "a", 3).map_err(|e| e.to_string()));
+        std::mem::forget(tx); // the op set is half-edited after a panic: do not roll back
+        r
+    });
+    rep.count("probe_scoped_increment");
+    match r {
+        Ok(Ok(_)) => {}
+        Ok(Err(p)) | Err(p) => {
+            rep.fail(&["C29", "C37"], &format!("panic|txn|call|scoped|increment|{}", p.signature()),
+                &format!("increment in a transaction scoped to heads where the register held a counter and a concurrent non-counter that were both deleted later: {} at {}", p.message, p.location),
+                json!({"probe": "A: put a = counter(8); B (fork): put a = null; A merge B; hs = heads; A: delete a; transaction_at(hs).increment(a, 3)"}));
+        }
+    }
+}
+
+/// splice / splice_text deletions (and delete on a text) in a transaction scoped to older heads do not recompute
+/// the top flags: when the deleted value had won a conflict against a value the scope does not cover, the
+/// survivor stays without a top flag — get() / values() miss it although length() and list_range() show it
+fn probe_scoped_splice_delete(rep: &mut Report) {
+    let r = guard(|| {
+        let mut a = AutoCommit::new().with_actor(ActorId::from(vec![9u8]));
+        let l = a.put_object(ROOT, "l", ObjType::List).unwrap();
+        a.insert(&l, 0, 1).unwrap();
+        a.commit();
+        let mut b = a.fork().with_actor(ActorId::from(vec![1u8]));
+        a.put(&l, 0, "a").unwrap();
+        a.commit();
+        let ha = a.get_heads();
+        b.put(&l, 0, "b").unwrap();
+        b.commit();
+        a.merge(&mut b).unwrap();
+        let mut m: Automerge = a.document().clone();
+        {
+            let mut tx = m.transaction_at(PatchLog::inactive(), &ha).unwrap();
+            tx.splice(&l, 0, 1, Vec::<ScalarValue>::new()).unwrap();
+            tx.commit();
+        }
+        let re = Automerge::load(&m.save()).unwrap();
+        let f = |d: &Automerge| format!("len {} get0 {:?} values {}", d.length(&l), d.get(&l, 0).map(|o| o.map(|x| format!("{:?}", x.0))).map_err(|_| ()), d.values(&l).count());
+        (f(&m), f(&re))
+    });
+    rep.count("probe_scoped_splice_delete");
+    match r {
+        Ok((mem, reloaded)) => {
+            if mem != reloaded {
+                rep.fail(&["C29", "C02"], "txn|iso|not-merge|after-scoped-splice-delete",
+                    &format!("after transaction_at(hs).splice(l, 0, 1, []) + commit the document reads {} but its saved and reloaded copy (and the merge of the change) reads {}", mem, reloaded),
+                    json!({"probe": "A (actor 09): l = [1]; B = fork (actor 01); A: put(l,0,'a'); hs = A's heads; B: put(l,0,'b'); A.merge(B); transaction_at(hs).splice(l,0,1,[]); commit"}));
+            }
+        }
+        Err(p) => rep.fail(&["C29", "C37"], &format!("panic|txn|probe-splice-delete|{}", p.signature()), &p.message, json!({})),
     }
 }
 
@@ -1695,6 +1821,8 @@ pub fn run(rng: &mut Rng, tier: &str, out: &str) -> Report {
     probe_rollback_queue(&mut rep);
     probe_known_integrate_panic(&mut rep);
     probe_counter_zero(&mut rep);
+    probe_scoped_increment(&mut rep);
+    probe_scoped_splice_delete(&mut rep);
     let only = std::env::var("VERIF_TXN_ONLY").ok();
     let skip = |part: &str, pi: usize| only.as_ref().map(|o| *o != format!("{}:{}", part, pi)).unwrap_or(false);
     for pi in 0..n_rb {
